@@ -239,6 +239,9 @@ def program(ops, nargs):
             nload += 1
         elif op[0] == "sha3":
             items += code_of(op[1], nargs) + ["POP"]
+        elif op[0] in ("sinc", "tinc"):   # loc := loc + 1 (read-modify-write)
+            ld, st_ = ("SLOAD", "SSTORE") if op[0] == "sinc" else ("TLOAD", "TSTORE")
+            items += code_of(op[1], nargs) + [ld, ("push", 1), "ADD"] + code_of(op[1], nargs) + [st_]
         else:
             raise ValueError(op)
     items += [("push", 32 * nload), ("push", 0x80), "RETURN"]
@@ -253,6 +256,10 @@ def ref_program(ops, env):
             (st if op[0] == "sstore" else tr)[spec_eval(op[1], env)] = spec_eval(op[2], env)
         elif op[0] in ("sload", "tload"):
             out.append((st if op[0] == "sload" else tr).get(spec_eval(op[1], env), 0))
+        elif op[0] in ("sinc", "tinc"):
+            d = st if op[0] == "sinc" else tr
+            k = spec_eval(op[1], env)
+            d[k] = (d.get(k, 0) + 1) % W
     return out
 
 
